@@ -6,6 +6,12 @@
 //   d  scope.attach(leaf) dropped unstarted
 //   f  scope.spawn(then(leaf)) = spawn_future: reference a = the future, reference b = the spawned
 //      operation; the future is dropped unconsumed on A_i; the leaf is completed on C_i
+//   x  spawn_detached(then(throwing_leaf), scope): connect of the nested sender throws while the
+//      detached operation is being constructed; the caller catches
+//   w  spawn_detached(then(leaf), scope, throwing allocator): the allocation throws; caller catches
+//   y  scope.attach(throwing_leaf) then connect: throws on an admitted sender (caller catches); a
+//      rejected one connects, is started and completes with done
+//   z  scope.spawn(then(throwing_leaf)) = spawn_future whose operation construction throws
 //   j  complete()      k  cleanup()      r  request_stop() and return      q  request_stop(); complete()
 // `!ref k` markers: see k1_scope.cpp.  The owner (thread 0) destroys the scope once every spawn
 // call has returned and every closer/joiner is done.
@@ -15,6 +21,7 @@
 using namespace unifex;
 
 static auto void_leaf(vh::leaf_ctl* c) { return then(vh::leaf{c}, [](int) noexcept {}); }
+static auto void_throwing(int i) { return then(sc::throwing_leaf{i}, [](int) noexcept {}); }
 
 struct Shared {
   manual_lifetime<v1::async_scope> scope;
@@ -26,6 +33,9 @@ struct Shared {
   using att_t = decltype(std::declval<v1::async_scope&>().attach(vh::leaf{nullptr}));
   using att_op_t = connect_result_t<att_t, vh::root_receiver<>>;
   manual_lifetime<att_op_t> att_op[MAXS];
+  using att_x_t = decltype(std::declval<v1::async_scope&>().attach(sc::throwing_leaf{0}));
+  manual_lifetime<connect_result_t<att_x_t, vh::root_receiver<>>> att_x[MAXS];
+  sc::run_ctl rc;
   using complete_t = decltype(std::declval<v1::async_scope&>().complete());
   using cleanup_t = decltype(std::declval<v1::async_scope&>().cleanup());
   manual_lifetime<connect_result_t<complete_t, sc::join_receiver>> cop[MAXJ];
@@ -43,7 +53,8 @@ int main(int argc, char** argv) {
   if (sp == "-") sp = "";
   const int S = (int)sp.size(), J = (int)jn.size();
   std::vector<int> ref0(S);
-  { int k = 0; for (int i = 0; i < S; ++i) { ref0[i] = k; k += sp[i] == 'f' ? 2 : 1; } }
+  { int k = 0; for (int i = 0; i < S; ++i) { ref0[i] = k; k += (sp[i] == 'f' || sp[i] == 'z') ? 2 : 1; } }
+  auto is_fault = [](char c) { return c == 'x' || c == 'w' || c == 'y' || c == 'z'; };
 
   auto make = [&]() -> std::vector<std::function<void()>> {
     auto sh = std::make_shared<Shared>();
@@ -73,6 +84,7 @@ int main(int argc, char** argv) {
       char k = sp[i];
       int r = ref0[i];
       th.push_back([sh, i, k, r] {
+        sc::active_guard ag(&sh->rc);
         dsched::block_until([&] { return sh->setup; });
         if (k == 'n') dsched::block_until([&] { return sh->closers_started > 0; });
         auto& scope = sh->scope.get();
@@ -97,6 +109,30 @@ int main(int argc, char** argv) {
           unifex::start(sh->att_op[i].get());
           sh->rejected[i] = !sh->ctl[i].started;
           dsched::action("attach%d %s", i, sh->rejected[i] ? "rejected" : "admitted");
+        } else if (k == 'x' || k == 'w' || k == 'z') {
+          try {
+            if (k == 'x') spawn_detached(void_throwing(i), scope);
+            else if (k == 'w') spawn_detached(void_leaf(&sh->ctl[i]), scope, sc::throwing_alloc<std::byte>{i});
+            else { auto fut = scope.spawn(void_throwing(i)); (void)fut; }
+            dsched::action("fault%d.nothrow", i);   // the scope was closed: nothing was constructed
+          } catch (const sc::connect_failure&) {
+            dsched::action("fault%d.caught", i);
+          } catch (const std::bad_alloc&) {
+            dsched::action("fault%d.caught", i);
+          }
+          sh->rejected[i] = true;
+          sh->nested[i] = true;
+        } else if (k == 'y') {
+          vh::root_receiver<> rcv{&sh->root[i], {}, sh->nestname[i]};
+          auto snd = scope.attach(sc::throwing_leaf{i});
+          sh->rejected[i] = true;
+          sh->nested[i] = true;
+          try {
+            sh->att_x[i].construct_with([&] { return unifex::connect(std::move(snd), rcv); });
+            unifex::start(sh->att_x[i].get());   // only an empty (rejected) sender gets here
+          } catch (const sc::connect_failure&) {
+            dsched::action("fault%d.caught", i);
+          }
         } else if (k == 'f') {
           {
             auto fut = scope.spawn(void_leaf(&sh->ctl[i]));
@@ -110,9 +146,10 @@ int main(int argc, char** argv) {
       });
     }
     for (int i = 0; i < S; ++i) {
-      if (sp[i] == 'd') continue;
+      if (sp[i] == 'd' || is_fault(sp[i])) continue;
       int r = ref0[i] + (sp[i] == 'f' ? 1 : 0);
       th.push_back([sh, i, r] {
+        sc::active_guard ag(&sh->rc);
         dsched::block_until([&] { return sh->ctl[i].started || (sh->nested[i] && sh->rejected[i]); });
         if (!sh->ctl[i].started) return;
         dsched::action("ref %d", r);
@@ -122,6 +159,7 @@ int main(int argc, char** argv) {
     for (int j = 0; j < J; ++j) {
       char jk = jn[j];
       th.push_back([sh, j, jk] {
+        sc::active_guard ag(&sh->rc);
         dsched::block_until([&] { return sh->setup; });
         auto& scope = sh->scope.get();
         sc::join_receiver rcv{&sh->jst[j], &sh->slot[j], j};
@@ -135,16 +173,17 @@ int main(int argc, char** argv) {
         if (jk == 'k') {
           sh->kop[j].construct_with([&] { return unifex::connect(scope.cleanup(), rcv); });
           unifex::start(sh->kop[j].get());
-          sh->slot[j].run_when_ready();
+          if (!sh->slot[j].run_when_ready(&sh->rc)) sh->jst[j].completions = -1;
           sh->kop[j].destruct();
         } else {
           sh->cop[j].construct_with([&] { return unifex::connect(scope.complete(), rcv); });
           unifex::start(sh->cop[j].get());
-          sh->slot[j].run_when_ready();
+          if (!sh->slot[j].run_when_ready(&sh->rc)) sh->jst[j].completions = -1;
           sh->cop[j].destruct();
         }
       });
     }
+    sh->rc.active = (int)th.size() - 1;
     return th;
   };
   sc::MonitorCfg cfg;
@@ -152,6 +191,12 @@ int main(int argc, char** argv) {
   for (char c : jn) if (c != 'r') cfg.joins_started++;
   cfg.expect_stop = jn.find_first_of("krq") != std::string::npos;
   for (int i = 0; i < S; ++i) if (sp[i] == 'f') cfg.stop_exempt.insert("leaf" + std::to_string(i));
+  for (char c : sp) {
+    if (c == 'x') cfg.fault_op = "spawn_detached";
+    if (c == 'w') cfg.fault_op = "spawn_detached-alloc";
+    if (c == 'y') cfg.fault_op = "attach+connect";
+    if (c == 'z') cfg.fault_op = "spawn_future";
+  }
   auto monitor = [&](const dsched::Result& r) -> std::string { return sc::scope_monitor(r, cfg); };
   return vh::drive(cli, make, monitor);
 }
